@@ -479,6 +479,11 @@ func (ex *Exec) evalModTarget(ctx *SpecCtx, c *Clause) []*modTarget {
 		pt := ex.env.resolve(base.T).Underlying().(*types.Pointer)
 		return []*modTarget{{kind: "field", base: ex.env.resolve(pt.Elem()), path: "", typ: pt.Elem(), ref: ex.valTerm(base.V), src: c.Src}}
 	case *ast.Ident:
+		if gg := ctx.findGhostGlobal(x.Name); gg != nil {
+			if _, shadow := ctx.names[x.Name]; !shadow {
+				return []*modTarget{{kind: "gglobal", key: ghostGlobalKey(gg), typ: ctx.ghostGlobalType(gg), src: c.Src}}
+			}
+		}
 		base := ctx.eval(x)
 		bt := ex.env.resolve(base.T)
 		if _, ok := bt.Underlying().(*types.Map); ok {
@@ -510,6 +515,10 @@ func (ex *Exec) havocTargets(st *State, targets []*modTarget) {
 			st.assume(ex.typeInv(t.typ, v, nil))
 		case "elems":
 			ex.havocElems(st, t.typ, t.sl)
+		case "gglobal":
+			for _, l := range ex.env.leaves(t.typ) {
+				st.heap[t.key+" "+l.Path] = ex.fresh("hv_gg", l.Sort)
+			}
 		case "map":
 			mt := ex.env.resolve(t.typ).Underlying().(*types.Map)
 			ex.havocMap(st, mt, t.ref)
@@ -608,6 +617,16 @@ func (ex *Exec) checkFrame(st *State, site string) {
 			}
 			goal := Forall([]*Term{x}, Implies(And(append([]*Term{isOld}, excl...)...), Eq(Select(cur, x), Select(init, x))))
 			ex.check(st, "frame", site+":"+key, goal, "frame: map "+key+" changed outside the modifies clause", "")
+		case strings.HasPrefix(key, "GG "):
+			allowed := false
+			for _, t := range ex.modTargets {
+				if t.kind == "gglobal" && strings.HasPrefix(key, t.key+" ") {
+					allowed = true
+				}
+			}
+			if !allowed {
+				ex.check(st, "frame", site+":"+key, Eq(cur, init), "frame: ghost global "+key+" changed", "")
+			}
 		case strings.HasPrefix(key, "G "):
 			allowed := false
 			for _, t := range ex.modTargets {
@@ -858,7 +877,12 @@ func (ex *Exec) copyElems(st *State, elem types.Type, dst, src *SliceV) *Term {
 		i := Sym(fmt.Sprintf("i!cp%d", ex.nfresh), is)
 		in := And(ex.sle(dst.Off, i), ex.slt(i, ex.iadd(dst.Off, n)))
 		srcIdx := ex.iadd(ex.isub(i, dst.Off), src.Off)
-		st.assume(Forall([]*Term{i}, Eq(Select(na, i), Ite(in, Select(srcA, srcIdx), Select(dstA, i))), []*Term{Select(na, i)}))
+		st.assume(Forall([]*Term{i}, Eq(Select(na, i), Ite(in, Select(srcA, srcIdx), Select(dstA, i))), []*Term{Select(na, i)}, []*Term{Select(dstA, i)}))
+		// the same fact indexed by the source position (gives a trigger on the source array)
+		j := Sym(fmt.Sprintf("j!cp%d", ex.nfresh), is)
+		inSrc := And(ex.sle(src.Off, j), ex.slt(j, ex.iadd(src.Off, n)))
+		dstIdx := ex.iadd(ex.isub(j, src.Off), dst.Off)
+		st.assume(Forall([]*Term{j}, Implies(inSrc, Eq(Select(na, dstIdx), Select(srcA, j))), []*Term{Select(srcA, j)}))
 		st.heap[key] = Store(h, dst.Arr, na)
 	}
 	return n
@@ -1031,6 +1055,23 @@ func (ex *Exec) havocMap(st *State, mt *types.Map, ref *Term) {
 
 func (ex *Exec) iterKey(r *ssa.Range) string {
 	return fmt.Sprintf("iter %s.%s", r.Parent().Name(), r.Name())
+}
+
+// currentRangeVisited returns the visited set of the unique map range of the
+// function under verification.
+func (ex *Exec) currentRangeVisited(st *State) *Term {
+	var found *Term
+	n := 0
+	for k, v := range st.heap {
+		if strings.HasPrefix(k, "iter ") {
+			found = v
+			n++
+		}
+	}
+	if n != 1 {
+		return nil
+	}
+	return found
 }
 
 func (ex *Exec) rangeInit(st *State, x *ssa.Range) *Val {
@@ -1382,8 +1423,67 @@ func (ex *Exec) substType(t types.Type) types.Type {
 
 // ---- locks, select, recv (sequential defaults) ----
 
-func (ex *Exec) lockCheck(st *State, loc *Loc, in ssa.Instruction)    {}
-func (ex *Exec) lockCheckMap(st *State, m *Term, in ssa.Instruction) {}
+// monitorFor returns the monitor declaration guarding the given location, if any.
+func (ex *Exec) monitorFor(loc *Loc) *MonitorSpec {
+	if loc.Kind != LHeap || loc.PathS == "" {
+		return nil
+	}
+	n, ok := types.Unalias(ex.env.resolve(loc.Base)).(*types.Named)
+	if !ok || n.Obj().Pkg() == nil {
+		return nil
+	}
+	first := strings.SplitN(strings.TrimPrefix(loc.PathS, "."), ".", 2)[0]
+	tname := n.Obj().Name()
+	for _, m := range ex.P.Specs.Monitors {
+		if m.PkgPath != n.Obj().Pkg().Path() {
+			continue
+		}
+		for _, g := range m.Guards {
+			if (m.TypeName == tname && g == first) || g == tname+"."+first {
+				return m
+			}
+		}
+	}
+	return nil
+}
+
+func (ex *Exec) lockCheck(st *State, loc *Loc, in ssa.Instruction) {
+	m := ex.monitorFor(loc)
+	if m == nil {
+		return
+	}
+	// objects allocated by this call are thread-local until published
+	for _, f := range st.fresh {
+		if f.ref.String() == loc.Ref.String() {
+			return
+		}
+	}
+	if !st.held["."+m.Lock] {
+		ex.check(st, "lock-held", ex.site("lock-held", in), TFalse, "access to guarded field "+loc.PathS+" without holding "+m.Lock, ex.pos(in))
+	} else {
+		ex.check(st, "lock-held", ex.site("lock-held", in), TTrue, "guarded field "+loc.PathS+" accessed under "+m.Lock, ex.pos(in))
+	}
+}
+
+func (ex *Exec) lockCheckMap(st *State, m *Term, in ssa.Instruction) {
+	// a map reached through a guarded field: (select |.. F T .guard| obj)
+	str := m.String()
+	for _, mon := range ex.P.Specs.Monitors {
+		for _, g := range mon.Guards {
+			if strings.Contains(g, ".") {
+				continue
+			}
+			if strings.Contains(str, mon.TypeName) && strings.Contains(str, " ."+g+"|") {
+				if !st.held["."+mon.Lock] {
+					ex.check(st, "lock-held", ex.site("lock-held:map", in), TFalse, "access to guarded map "+g+" without holding "+mon.Lock, ex.pos(in))
+				} else {
+					ex.check(st, "lock-held", ex.site("lock-held:map", in), TTrue, "guarded map "+g+" accessed under "+mon.Lock, ex.pos(in))
+				}
+				return
+			}
+		}
+	}
+}
 
 func (ex *Exec) execSelect(st *State, fr *Frame, x *ssa.Select, k func(*State)) {
 	panic(oos("select statement"))
